@@ -17,7 +17,66 @@ from .reftest import FOUNDRY_CALLER, FOUNDRY_TEST, TEST_BALANCE
 
 OWNER = 0x1001
 OTHER = 0x2002
+ANY = 0x3003  # a sender that is neither: the functions compare msg.sender with OWNER only
 TARGET_ADDR = 0xAAAA0002  # first CREATE of setUp()
+DUMMY_ADDR = 0xAAAA0003  # second CREATE of setUp() (filter scenarios): a contract whose only function changes nothing
+
+GETTERS = ["targetSenders()", "excludeSenders()", "targetContracts()", "excludeContracts()", "targetSelectors()", "excludeSelectors()"]
+
+
+@dataclass
+class Filters:
+    """What the test contract's forge-std getters return."""
+
+    t_senders: list = field(default_factory=list)
+    x_senders: list = field(default_factory=list)
+    t_contracts: list = field(default_factory=list)
+    x_contracts: list = field(default_factory=list)
+    t_selectors: list = field(default_factory=list)  # [(addr, [function signature, ...])]
+    x_selectors: list = field(default_factory=list)
+
+    def describe(self) -> str:
+        parts = []
+        for k in ("t_senders", "x_senders", "t_contracts", "x_contracts"):
+            if getattr(self, k):
+                parts.append(f"{k}={[hex(a) for a in getattr(self, k)]}")
+        for k in ("t_selectors", "x_selectors"):
+            if getattr(self, k):
+                parts.append(f"{k}={[(hex(a), sigs) for a, sigs in getattr(self, k)]}")
+        return " ".join(parts) or "no filters"
+
+
+def _w32(n: int) -> bytes:
+    return n.to_bytes(32, "big")
+
+
+def enc_addr_array(addrs: list[int]) -> bytes:
+    return _w32(0x20) + _w32(len(addrs)) + b"".join(_w32(a) for a in addrs)
+
+
+def enc_fuzzselector_array(items: list) -> bytes:
+    """abi.encode(FuzzSelector[]) with FuzzSelector = (address addr, bytes4[] selectors)."""
+    heads, tails = [], b""
+    for addr, sigs in items:
+        heads.append(32 * len(items) + len(tails))
+        sels = b"".join(bytes.fromhex(selector(sg)).ljust(32, b"\0") for sg in sigs)
+        tails += _w32(addr) + _w32(0x40) + _w32(len(sigs)) + sels
+    return _w32(0x20) + _w32(len(items)) + b"".join(_w32(h) for h in heads) + tails
+
+
+def getter_fns(flt: Filters) -> tuple[list, list]:
+    """The six forge-std getters as view functions returning constant ABI blobs."""
+    blobs = {
+        "targetSenders()": enc_addr_array(flt.t_senders), "excludeSenders()": enc_addr_array(flt.x_senders),
+        "targetContracts()": enc_addr_array(flt.t_contracts), "excludeContracts()": enc_addr_array(flt.x_contracts),
+        "targetSelectors()": enc_fuzzselector_array(flt.t_selectors), "excludeSelectors()": enc_fuzzselector_array(flt.x_selectors),
+    }
+    fns, data = [], []
+    for i, sig in enumerate(GETTERS):
+        b = blobs[sig]
+        fns.append(Fn(sig, [("PUSHN", 2, len(b)), ("PUSHL", f"blob{i}"), ("PUSH", 0), "CODECOPY", ("PUSHN", 2, len(b)), ("PUSH", 0), "RETURN"], mutability="view"))
+        data += [("MARK", f"blob{i}"), ("RAW", b)]
+    return fns, data
 
 
 def _a():  # masked argument
@@ -47,7 +106,7 @@ class TFn:
 
 def gen_functions(rnd: random.Random, n: int) -> list[TFn]:
     out = []
-    kinds = ["inc", "setx", "gate", "owner", "pay", "assertive", "swap", "reset", "addy", "incy"]
+    kinds = ["inc", "setx", "gate", "owner", "pay", "assertive", "swap", "reset", "addy", "incy", "sameblock", "later", "sameblock"]
     rnd.shuffle(kinds)
     for i, k in enumerate(kinds[:n]):
         lab = f"r{i}"
@@ -76,6 +135,14 @@ def gen_functions(rnd: random.Random, n: int) -> list[TFn]:
             out.append(TFn(f"swap{i}()", _x() + _y() + [("PUSH", 0), "SSTORE", ("PUSH", 1), "SSTORE", "STOP"], 0, desc="x,y=y,x"))
         elif k == "reset":
             out.append(TFn(f"reset{i}()", _set(0, [("PUSH", 0)]) + ["STOP"], 0, desc="x=0"))
+        elif k == "sameblock":
+            # slot 2 remembers the block timestamp of the latest call of this function
+            body = ["TIMESTAMP", ("PUSH", 2), "SLOAD", "EQ", ("PUSHL", lab), "JUMPI", "TIMESTAMP", ("PUSH", 2), "SSTORE", "STOP", ("LABEL", lab)] + _set(0, [("PUSH", K)]) + ["STOP"]
+            out.append(TFn(f"sameblock{i}()", body, 0, desc=f"if(block.timestamp==last) x={K} else last=block.timestamp"))
+        elif k == "later":
+            body = [("PUSH", 2), "SLOAD", "DUP1", "ISZERO", ("PUSHL", lab), "JUMPI", "DUP1", "TIMESTAMP", "GT", "ISZERO", ("PUSHL", lab), "JUMPI"] + _set(1, [("PUSH", K)]) + \
+                   [("LABEL", lab), "POP", "TIMESTAMP", ("PUSH", 2), "SSTORE", "STOP"]
+            out.append(TFn(f"later{i}()", body, 0, desc=f"if(last!=0 && block.timestamp>last) y={K}; last=block.timestamp"))
         elif k == "addy":
             out.append(TFn(f"addy{i}()", _set(0, _x() + _y() + ["ADD"]) + ["STOP"], 0, desc="x+=y"))
     return out
@@ -89,17 +156,28 @@ class Machine:
     inv_desc: str
     depth: int
     meta: dict = field(default_factory=dict)
+    filters: Filters | None = None
+    dummy: Contract | None = None
 
 
-def gen_machine(rnd: random.Random, depth: int | None = None) -> Machine:
-    fns = gen_functions(rnd, rnd.randint(2, 4))
+def gen_machine(rnd: random.Random, depth: int | None = None, fns: list[TFn] | None = None, inv: tuple | None = None,
+                filters: Filters | None = None) -> Machine:
+    fns = fns if fns is not None else gen_functions(rnd, rnd.randint(2, 4))
     getx = Fn("getx()", _x() + [("PUSH", 0), "MSTORE", ("PUSH", 32), ("PUSH", 0), "RETURN"], mutability="view")
     gety = Fn("gety()", _y() + [("PUSH", 0), "MSTORE", ("PUSH", 32), ("PUSH", 0), "RETURN"], mutability="view")
     target = Contract("Machine", [Fn(f.sig, _uniq(f.body, f"t{i}"), mutability="payable" if f.payable else "nonpayable") for i, f in enumerate(fns)] + [getx, gety],
                       filename="src/Machine.sol")
     tinit = target.creation()
     setup = [("PUSHN", 2, len(tinit)), ("PUSHL", "tinit"), ("PUSH", 0x100), "CODECOPY", ("PUSHN", 2, len(tinit)), ("PUSH", 0x100), ("PUSH", 0), "CREATE",
-             ("PUSH", 0), "SSTORE", "STOP"]
+             ("PUSH", 0), "SSTORE"]
+    extra_fns, extra_data, dummy = [], [], None
+    if filters is not None:
+        dummy = Contract("Dummy", [Fn("noop()", ["STOP"])], filename="src/Dummy.sol")
+        dinit = dummy.creation()
+        setup += [("PUSHN", 2, len(dinit)), ("PUSHL", "dinit"), ("PUSH", 0x100), "CODECOPY", ("PUSHN", 2, len(dinit)), ("PUSH", 0x100), ("PUSH", 0), "CREATE", "POP"]
+        extra_fns, extra_data = getter_fns(filters)
+        extra_data += [("MARK", "dinit"), ("RAW", dinit)]
+    setup += ["STOP"]
 
     def call_get(sig, off):
         return [("PUSHN", 32, int(selector(sig), 16) << 224), ("PUSH", 0), "MSTORE",
@@ -107,6 +185,8 @@ def gen_machine(rnd: random.Random, depth: int | None = None) -> Machine:
 
     V, V2 = rnd.randint(1, 4), rnd.randrange(4)
     kind = rnd.choice(["x", "sum", "pair"])
+    if inv is not None:
+        kind, V, V2 = inv
     load = call_get("getx()", 0x40) + call_get("gety()", 0x60)
     if kind == "x":
         cond = [("PUSH", 0x40), "MLOAD", ("PUSH", V), "EQ"]
@@ -118,9 +198,10 @@ def gen_machine(rnd: random.Random, depth: int | None = None) -> Machine:
         cond = [("PUSH", 0x40), "MLOAD", ("PUSH", V), "EQ", ("PUSH", 0x60), "MLOAD", ("PUSH", V2), "EQ", "AND"]
         desc = f"!(x == {V} && y == {V2})"
     inv = load + cond + [("PUSHL", "bad"), "JUMPI", "STOP", ("LABEL", "bad")] + panic(1)
-    test = Contract("InvTest", [Fn("setUp()", setup), Fn("invariant_machine()", inv)], data=[("MARK", "tinit"), ("RAW", tinit)])
+    test = Contract("InvTest", [Fn("setUp()", setup), Fn("invariant_machine()", inv)] + extra_fns, data=[("MARK", "tinit"), ("RAW", tinit)] + extra_data)
     return Machine(test, target, fns, desc, depth if depth is not None else rnd.choice([1, 2, 2, 3]),
-                   meta={"functions": [f"{f.sig}: {f.desc}" for f in fns], "invariant": desc})
+                   meta={"functions": [f"{f.sig}: {f.desc}" for f in fns], "invariant": desc, "filters": filters.describe() if filters else "none"},
+                   filters=filters, dummy=dummy)
 
 
 def _uniq(body, tag):
@@ -133,10 +214,11 @@ def _uniq(body, tag):
     return out
 
 
-def frontier_case(cid: int, m: Machine, depth: int | None = None, fns: list[TFn] | None = None, senders: list[int] | None = None) -> dict:
+def frontier_case(cid: int, m: Machine, depth: int | None = None, fns: list[TFn] | None = None, senders: list[int] | None = None,
+                  first_at_setup: bool = True) -> dict:
     """The Frontier.tla case for machine m (optionally with a filtered function / sender set)."""
     w = e1.word
-    base = e1.mk_case(cid, {}, [], balances={FOUNDRY_TEST: TEST_BALANCE, OWNER: 10, OTHER: 10})
+    base = e1.mk_case(cid, {}, [], balances={FOUNDRY_TEST: TEST_BALANCE, OWNER: 10, OTHER: 10, ANY: 10})
     base.pop("txs")
     base["pre"] = [
         e1.mk_tx(FOUNDRY_TEST, FOUNDRY_CALLER, FOUNDRY_CALLER, 0, m.test.creation(), create=True),
@@ -144,9 +226,36 @@ def frontier_case(cid: int, m: Machine, depth: int | None = None, fns: list[TFn]
     ]
     base["inv"] = e1.mk_tx(FOUNDRY_TEST, FOUNDRY_CALLER, FOUNDRY_CALLER, 0, bytes.fromhex(selector("invariant_machine()")))
     use = fns if fns is not None else m.fns
-    base["targets"] = [{"addr": w(TARGET_ADDR), "fns": [{"sel": list(bytes.fromhex(selector(f.sig))), "nargs": f.nargs,
-                                                          "values": [w(0), w(1)] if f.payable else [w(0)]} for f in use]}]
+
+    def fn_rec(sig, nargs, payable, view=False):
+        return {"sel": list(bytes.fromhex(selector(sig))), "nargs": nargs, "values": [w(0), w(1)] if payable else [w(0)], "view": view}
+
+    # every deployed contract with every function of its ABI; which of them are called is decided by the
+    # specification (Frontier!TargetAddrs / TargetFns) from the filters the test contract declares
+    base["deployed"] = [{"addr": w(TARGET_ADDR), "fns": [fn_rec(f.sig, f.nargs, f.payable) for f in use] +
+                         [fn_rec("getx()", 0, False, True), fn_rec("gety()", 0, False, True)]}]
+    flt = m.filters or Filters()
+    if m.filters is not None:
+        base["deployed"].append({"addr": w(DUMMY_ADDR), "fns": [fn_rec("noop()", 0, False)]})
+
+    def sel_list(items):
+        return [{"addr": w(a), "sels": [list(bytes.fromhex(selector(sg))) for sg in sigs]} for a, sigs in items]
+
+    base["test"] = w(FOUNDRY_TEST)
+    base["filters"] = {"tSenders": [w(a) for a in flt.t_senders], "xSenders": [w(a) for a in flt.x_senders],
+                       "tContracts": [w(a) for a in flt.t_contracts], "xContracts": [w(a) for a in flt.x_contracts],
+                       "tSelectors": sel_list(flt.t_selectors), "xSelectors": sel_list(flt.x_selectors)}
     base["argdom"] = [w(i) for i in range(4)]
-    base["senders"] = [w(s) for s in (senders if senders is not None else [OWNER, OTHER])]
+    base["senders"] = [w(s) for s in (senders if senders is not None else [OWNER, OTHER, ANY])]
     base["depth"] = depth if depth is not None else m.depth
+    # timestamps: setUp runs at 1; the targets only compare timestamps with each other, so depth+1 values are complete
+    base["tsdom"] = [w(t) for t in range(1, base["depth"] + 2)]
+    base["firstAtSetup"] = first_at_setup
     return base
+
+
+def late_machine() -> Machine:
+    """Probe: the only way to break `x != 3` is a first call at a timestamp later than setUp's."""
+    body = ["TIMESTAMP", ("PUSH", 1), "LT", ("PUSHL", "r"), "JUMPI", "STOP", ("LABEL", "r")] + _set(0, [("PUSH", 3)]) + ["STOP"]
+    f = TFn("late()", body, 0, desc="if(block.timestamp>1) x=3")
+    return gen_machine(random.Random(0), depth=1, fns=[f], inv=("x", 3, 0))
